@@ -97,7 +97,7 @@ CLAIMS.update({
     "C18": dict(level="model_checking", engine="gosym", technique=E1_TECH + " (self-composition: two contexts, host sources unconstrained)", design_ref="DESIGN.md §5 C18",
         text="Two system contexts built by the real NewModuleConfig().toSysContext(): every host source the default configuration does not replace (time.now, sleep, OS entropy) is an unconstrained symbol or cuts the path in the executor, "
              "so equality of the two contexts' readings is non-interference: wall clock and monotonic clock equal the documented fixed sequence for the first 3 readings, random bytes are equal, no args/environ, "
-             "stdin empty, stdout discards, nothing pre-opened. math/rand's generator is executed from source (seed 42); Contexts built LATER from the same configuration value (and from a derivation of it), after earlier instances consumed readings, start from the same random bytes and clock values. Readings beyond the third and whole-guest traces are outside the claim."),
+             "stdin empty, stdout discards, nothing pre-opened. math/rand's generator is executed from source (seed 42); Contexts built LATER from the same configuration value (and from a derivation of it), after earlier instances consumed readings, start from the same random bytes and clock values. poll_oneoff with fd_read subscriptions on two different files gives the same events in the same order in two fresh instances, under every iteration order of Go maps (explored as permutations). Readings beyond the third and whole-guest traces are outside the claim."),
     "C04": dict(level="model_checking", engine="gosym", technique=E1_TECH, design_ref="DESIGN.md §5 C04",
         text="Constant-expression capture: for every value type, any initial and live value and both kinds of exporting engine (globals kept by the engine or not), GlobalInstance.initialize and executeConstExpressionI32 "
              "capture the imported global's current value; what validateConstExpression accepts names an in-range global of the expected type / in-range function. Through the real pipeline on the interpreter: a grid of "
@@ -109,7 +109,7 @@ CLAIMS.update({
     "C11": dict(level="model_checking", engine="gosym", technique=E1_TECH, design_ref="DESIGN.md §5 C11",
         text="Two instances of ONE compiled module (the same wasm.Module and compiled code; active and passive data segments, mutable global, table with an element) through the real pipeline on the interpreter, the second created before or after "
              "one arbitrary mutating operation on the first (store / global.set / memory.grow / memory.fill / table.set / data.drop / memory.init+data.drop with symbolic operands): the second instance's memory at a symbolic address, global, "
-             "memory size, table element and passive segment (memory.init succeeds and copies it) are exactly as freshly instantiated. "
+             "memory size, table element and passive data segment (memory.init succeeds and copies it) are exactly as freshly instantiated, and a function installed from the passive ELEMENT segment by table.init and called by call_indirect runs in the instance that installed it. "
              "File descriptors/stdio isolation and the compiler side are outside this claim."),
     "C01": dict(level="translation_validation", engine="gosym", design_ref="DESIGN.md §3, §5 C01",
         technique="translation validation by symbolic execution: the real front end + SSA passes compile each generated program, a reference evaluator of the emitted SSA and the real interpreter run on the same symbolic inputs, z3 decides equality",
